@@ -112,6 +112,8 @@ def _accessor(name, p, n):
         hints=[f'bits_prefix(self, 6, {p}, {n})', f'bits_range(self, {p}, {n})'],
         may_raise={'ValueError': f'{p + n} > 8 * len(self)'},
         modifies=[],
+        # a cached property of an immutable bytes object (E11): the same value on every read of the same bytes
+        pure=True,
         native={'gen': _gen_pkt, 'build': _build_pkt,
                 'call': f'packets.RawPacketData.{name}.func'},
     )
@@ -299,7 +301,7 @@ CONTRACTS = [
         props=['C02', 'C10', 'C13', 'C19', 'C11', 'C01'],
         params={'binary_data': 'bytes', 'buffer_read_size_bytes': ('opt', 'int'), 'show_progress': 'bool',
                 'skip_header_bytes': 'int'},
-        ghost={'yield_type': 'bytes', 'defs': {'k': 'skip_header_bytes', 'j': 'len(out)'}},
+        ghost={'yield_type': 'bytes', 'item_class': 'packets.RawPacketData', 'defs': {'k': 'skip_header_bytes', 'j': 'len(out)'}},
         variants={
             'file': {'params': {'binary_data': ('source', 'file')},
                      'requires': ['is_none(buffer_read_size_bytes) or buffer_read_size_bytes != 0'],
@@ -323,6 +325,7 @@ CONTRACTS = [
                     'packets_parsed': 'n_packets_parsed == len(out)',
                     'yielded': ('forall(lambda i: at(out, i) == sl(T, fb(T, k, i) + k, fb(T, k, i + 1)) and '
                                 'fb(T, k, i + 1) <= len(T) and fb(T, k, i) + k + 6 <= len(T), 0, len(out))'),
+                    'yielded_complete': 'forall(lambda i: len(at(out, i)) >= 7, 0, len(out))',
                     'total_known': 'is_none(total_length_bytes) or total_length_bytes == len(T)',
                 },
                 decreases='len(T) - fb(T, k, len(out))',
@@ -364,6 +367,8 @@ CONTRACTS = [
             # every yielded item is a consecutive, complete slice of the input
             'consecutive': ('forall(lambda i: at(out, i) == sl(T, fb(T, k, i) + k, fb(T, k, i + 1)) and '
                             'fb(T, k, i + 1) <= len(T), 0, len(out))'),
+            # every item has a primary header and at least one byte of data (what clients of the items rely on)
+            'items_complete': 'forall(lambda i: len(at(out, i)) >= 7, 0, len(out))',
         },
         raises={},
         modifies=[],
